@@ -227,6 +227,128 @@ Proof.
   - destruct ((0 =? 0)%Z && (otell o =? otell o2)%Z) eqn:E; [|discriminate]. injection Es as <- <-. lia.
 Qed.
 
+(* ---- C08: OffsettedEnd and NullTerminated ----
+   OffsettedEnd: the region runs from the current position to `off` bytes from the END of the (seekable) stream; it is fixed before the inner
+   construct runs, the inner construct sees exactly those bytes at their absolute offset, and the outer stream ends right behind them whatever
+   the inner construct consumed. NullTerminated: the region is what the scan returns; for a one-byte terminator that is everything in front of
+   the FIRST occurrence of the terminator (plus the terminator with include=True), and the outer stream stands behind the terminator
+   (consume=True) or at it (consume=False). *)
+Lemma iseek_end s p : iseekable s = true ->
+  iseek s 0 2 p = Ok ((Z.of_N (ibase s) + Z.of_nat (length (idata s)))%Z, iset_pos s (nlen (idata s))).
+Proof.
+  intros Sk. unfold iseek. rewrite Sk. cbn [negb Z.eqb Pos.eqb].
+  replace (Z.to_N (Z.max 0 (Z.of_nat (length (idata s)) + 0))) with (nlen (idata s)) by (unfold nlen; lia).
+  unfold itell, iset_pos, nlen; cbn [ibase ipos]. f_equal. f_equal. lia.
+Qed.
+
+Lemma iseek_back_to s q p : iseekable s = true ->
+  iseek (iset_pos s q) (itell s) 0 p = Ok (itell s, s).
+Proof.
+  intros Sk. unfold iseek. cbn [iset_pos iseekable ibase]. rewrite Sk. cbn [negb Z.eqb].
+  replace (itell s - Z.of_N (ibase s))%Z with (Z.of_N (ipos s)) by (unfold itell; lia).
+  destruct (Z.of_N (ipos s) <? 0)%Z eqn:E; [lia|].
+  rewrite N2Z.id. unfold iset_pos; cbn [idata ibase iseekable]. rewrite istream_eta. reflexivity.
+Qed.
+
+Theorem offsettedend_region : forall off c cx p s v s',
+  iseekable s = true ->
+  parse (COffsettedEnd off c) cx p s = Ok (v, s') ->
+  exists o d, eval_int cx off = Ok o /\
+    iread s (Z.of_N (ibase s) + Z.of_nat (length (idata s)) + o - itell s) p = Ok (d, s') /\
+    exists si, parse c cx p (substream d (iabs s)) = Ok (v, si).
+Proof.
+  intros off c cx p s v s' Sk H. cbn [parse] in H.
+  destruct (eval_int cx off) as [o|] eqn:Eo; [|discriminate]. cbn [bind] in H.
+  rewrite iseek_end in H by exact Sk. cbn [bind] in H.
+  rewrite iseek_back_to in H by exact Sk. cbn [bind] in H.
+  destruct (iread s _ p) as [[d s3]|] eqn:Er; [|discriminate]. cbn [bind] in H.
+  destruct (parse c cx p (substream d (iabs s))) as [[v1 si]|] eqn:Ep; [|discriminate]. cbn [bind] in H.
+  injection H as <- <-. exists o, d. split; [reflexivity|]. split; [exact Er|]. exists si. exact Ep.
+Qed.
+
+(* on a concrete stream: with `body` still unread and k = -off bytes to be left at the end, the inner construct sees the first |body| - k bytes *)
+Theorem offsettedend_at : forall k c cx p pre body base v s',
+  (0 <= k <= Z.of_nat (length body))%Z ->
+  parse (COffsettedEnd (kint (- k)) c) cx p (at_pos pre body base true) = Ok (v, s') ->
+  let n := Z.to_nat (Z.of_nat (length body) - k) in
+  s' = at_pos (pre ++ firstn n body) (skipn n body) base true /\
+  exists si, parse c cx p (substream (firstn n body) (base + nlen pre)) = Ok (v, si).
+Proof.
+  intros k c cx p pre body base v s' Hk H n.
+  assert (Sk : iseekable (at_pos pre body base true) = true) by reflexivity.
+  destruct (offsettedend_region _ _ _ _ _ _ _ Sk H) as (o & d & Eo & Er & si & Ep).
+  rewrite eval_int_kint in Eo. injection Eo as <-.
+  assert (Hn : (n <= length body)%nat) by lia.
+  assert (Hlen : (Z.of_N (ibase (at_pos pre body base true)) + Z.of_nat (length (idata (at_pos pre body base true))) + - k - itell (at_pos pre body base true))%Z
+                 = Z.of_nat (length (firstn n body))).
+  { rewrite itell_at. unfold at_pos; cbn [ibase idata]. rewrite app_length, firstn_length_le by exact Hn. unfold nlen. lia. }
+  rewrite Hlen in Er. rewrite <- (firstn_skipn n body) in Er at 1. rewrite iread_at in Er. injection Er as <- <-.
+  split; [reflexivity|]. exists si. rewrite iabs_at in Ep. exact Ep.
+Qed.
+
+(* ---- NullTerminated ---- *)
+Theorem nullterminated_region : forall c term incl consume req cx p s v s',
+  parse (CNullTerminated c term incl consume req) cx p s = Ok (v, s') ->
+  term <> [] /\
+  exists d, nullterm_scan (S (length (iavail s))) term incl consume req [] s p = Ok (d, s') /\
+    exists si, parse c cx p (substream d (iabs s)) = Ok (v, si).
+Proof.
+  intros c term incl consume req cx p s v s' H. cbn [parse] in H.
+  destruct term as [|t0 tt]; [discriminate|]. split; [discriminate|].
+  destruct (nullterm_scan _ (t0 :: tt) incl consume req [] s p) as [[d s1]|] eqn:Es; [|discriminate]. cbn [bind] in H.
+  destruct (parse c cx p (substream d (iabs s))) as [[v1 si]|] eqn:Ep; [|discriminate]. cbn [bind] in H.
+  injection H as <- <-. exists d. split; [reflexivity|]. exists si. exact Ep.
+Qed.
+
+Lemma byte1_eqb x t : bytes_eqb [x] [t] = Byte.eqb x t.
+Proof. cbn [bytes_eqb]. rewrite andb_true_r. reflexivity. Qed.
+
+Lemma byte_eqb_refl x : Byte.eqb x x = true.
+Proof. apply Byte.byte_dec_lb. reflexivity. Qed.
+
+Lemma byte_eqb_neq x t : x <> t -> Byte.eqb x t = false.
+Proof. intros H. destruct (Byte.eqb x t) eqn:E; [|reflexivity]. apply Byte.byte_dec_bl in E. contradiction. Qed.
+
+Lemma iseek_rel_back pre t rest base p :
+  iseek (at_pos (pre ++ [t]) rest base true) (- Z.of_nat 1) 1 p = Ok (Z.of_N (base + nlen pre), at_pos pre (t :: rest) base true).
+Proof.
+  unfold iseek, at_pos. cbn [iseekable negb Z.eqb ipos]. change (1 =? 0)%Z with false. cbn [Z.eqb Pos.eqb].
+  unfold itell, iset_pos; cbn [idata ibase ipos iseekable].
+  replace (Z.to_N (Z.max 0 (Z.of_N (nlen (pre ++ [t])) + - Z.of_nat 1))) with (nlen pre)
+    by (unfold nlen; rewrite app_length; cbn [length]; lia).
+  rewrite <- app_assoc. reflexivity.
+Qed.
+
+(* the scan with a one-byte terminator: everything in front of the FIRST occurrence of the terminator is the region *)
+Lemma scan1 t incl consume req p : forall d acc pre rest base fuel,
+  ~ In t d -> (length d < fuel)%nat ->
+  nullterm_scan fuel [t] incl consume req acc (at_pos pre (d ++ t :: rest) base true) p =
+  Ok (acc ++ d ++ (if incl then [t] else []),
+      if consume then at_pos (pre ++ d ++ [t]) rest base true else at_pos (pre ++ d) (t :: rest) base true).
+Proof.
+  induction d as [|x d IH]; intros acc pre rest base fuel Hnin Hf; (destruct fuel as [|f]; [cbn in Hf; lia|]); cbn [nullterm_scan length app].
+  - pose proof (iread_at pre [t] rest base true p) as R. cbn [length app] in R.
+    rewrite R. rewrite byte1_eqb, byte_eqb_refl.
+    destruct consume.
+    + destruct incl; rewrite ?app_nil_r; reflexivity.
+    + rewrite iseek_rel_back. cbn [bind]. destruct incl; rewrite ?app_nil_r; reflexivity.
+  - pose proof (iread_at pre [x] (d ++ t :: rest) base true p) as R. cbn [length app] in R.
+    rewrite R. rewrite byte1_eqb, byte_eqb_neq by (intros ->; apply Hnin; left; reflexivity).
+    rewrite IH by (try (intros Hin; apply Hnin; right; exact Hin); cbn [length] in Hf; lia).
+    rewrite <- !app_assoc. reflexivity.
+Qed.
+
+Theorem nullterminated_first_terminator : forall c t incl consume req cx p pre d rest base,
+  ~ In t d ->
+  parse (CNullTerminated c [t] incl consume req) cx p (at_pos pre (d ++ t :: rest) base true) =
+  (let* (v, _) := parse c cx p (substream (d ++ (if incl then [t] else [])) (base + nlen pre)) in
+   Ok (v, if consume then at_pos (pre ++ d ++ [t]) rest base true else at_pos (pre ++ d) (t :: rest) base true)).
+Proof.
+  intros c t incl consume req cx p pre d rest base Hnin. cbn [parse].
+  rewrite iavail_at. rewrite scan1 by (try exact Hnin; rewrite app_length; cbn [length]; lia).
+  cbn [bind app]. rewrite iabs_at. reflexivity.
+Qed.
+
 (* Select: failed alternatives leave no trace; the result is that of the first alternative that
    succeeds from the starting position *)
 Fixpoint first_success (P : con -> parser) (cs : list con) (cx : ctx) (p : path) (s : istream)
